@@ -126,6 +126,7 @@ def check_case(case, res: Result):
         ever_started: set[int] = set()
         max_active: dict[str, int] = {}
         ended_blocks: set[int] = set()
+        registered: dict[int, bool] = {}
 
         # ---- single pass over the trace with incrementally maintained node state
         last_started_idx: dict[int, int] = {}
@@ -142,6 +143,8 @@ def check_case(case, res: Result):
                 res.count("restart_events")
                 if not isinstance(n, (p.WatchNode, p.AlarmNode, p.WhitespaceNode, p.ProgramNode)):
                     V("C02.second_visit_of_started_node", f"node {nid} {cls} visited again while started (tick {tick})", n)
+            elif field == "interrupt_registered":
+                registered[pid] = bool(new)
             elif field == "block_ended" and new is True:
                 ended_blocks.add(pid)
             elif field == "block_ended" and new is False:
@@ -161,7 +164,22 @@ def check_case(case, res: Result):
                 if s_n["started"] and not s_n["completed"] and not s_n["failed"] \
                         and not isinstance(n, (p.WhitespaceNode, p.MacroNode)):
                     res.count("in_progress_resets")
-                    tainted |= taint_scope(n)
+                    # the reset is only harmful if something that executes this node is still alive:
+                    chain = [n] + list(n.parents)
+                    reps = [a for a in chain if isinstance(a, (p.AlarmNode, p.MacroNode))]
+                    top = reps[-1] if reps else None
+                    below_top = chain[:chain.index(top)] if top is not None else chain
+                    alive = None
+                    if any(isinstance(a, p.NodeWithCondition) and registered.get(id(a), False) for a in below_top):
+                        alive = "interrupt of a nested Watch/Alarm still registered"
+                    elif isinstance(n, (p.UodCommandNode, p.EngineCommandNode)):
+                        alive = "command still executing in the command manager"
+                    elif any(isinstance(a, p.MacroNode) and any(isinstance(b, p.AlarmNode) for b in a.parents)
+                             and active_calls.get(a.macro_name, 0) >= 1 for a in chain):
+                        alive = "macro defined inside an Alarm body is being executed by a caller"
+                    if alive:
+                        res.count("harmful_in_progress_resets")
+                        tainted |= taint_scope(n)
                     if isinstance(n, p.CallMacroNode):
                         active_calls[n.macro_name] = active_calls.get(n.macro_name, 0) - 1
                 s_n["started"] = False
